@@ -2608,6 +2608,91 @@ val v_start : start_res -> val0
 
 val dispatch_http : z -> val0 -> val0 option
 
+type sitem = z * str
+
+val current_items : sitem option -> sitem list
+
+val plus_items : sitem option -> sitem list -> sitem list
+
+val join_with : str -> str list -> str
+
+val file_text : str -> str list -> str
+
+val item_text : bool -> str -> str
+
+val force_update_of : str -> bool
+
+val plus_of : str -> bool
+
+val preview_flags : piece list -> (bool * bool) * bool
+
+val has_preview_flags : str -> (bool * bool) * bool
+
+val min_item : item2
+
+val opt_items : item2 option -> item2 list
+
+val build_plus_list :
+  str -> bool -> item2 option -> item2 list -> bool * (item2 list * item2
+  list)
+
+val with_items : params -> item2 list -> item2 list -> params
+
+val terminal_expand :
+  params -> item2 option -> item2 list -> str -> str list ->
+  (bool * (str * str list)) res
+
+val own_files : params -> piece -> str list res
+
+type ritem = { r_index : z; r_text : str; r_orig : str option }
+
+val trimmed_of : ((str * aoff list option) * astate option) -> str
+
+val ansi_processor : bool -> bool -> astate option -> str -> str res
+
+val read_item :
+  bool -> bool -> astate option -> str option -> z -> str -> ritem res
+
+val as_string : bool -> ritem -> str res
+
+val terminal_strip_ansi : bool -> bool -> bool
+
+val seen_item : bool -> ritem -> item2 res
+
+val seen_opt : bool -> ritem option -> item2 option res
+
+val view_terminal_expand :
+  bool -> bool -> params -> ritem option -> ritem list -> str -> str list ->
+  (bool * (str * str list)) res
+
+type rline = (astate option * str option) * (z * str)
+
+val read_line : bool -> bool -> rline -> ritem res
+
+val vopt_words : str list option -> val0
+
+val as_item1 : val0 -> item2
+
+val as_optstr : val0 -> str option
+
+val as_params : val0 -> params
+
+val as_seg : val0 -> seg
+
+val v_outp : outp -> val0
+
+val v_piece : piece -> val0
+
+val v_item : item2 -> val0
+
+val as_optitem : val0 -> item2 option
+
+val dispatch_placeholder : z -> val0 -> val0 option
+
+val as_rline : val0 -> rline
+
+val dispatch_itemview : z -> val0 -> val0 option
+
 type 'item result = 'item * z
 
 val matches_of :
@@ -2734,7 +2819,7 @@ val ld_step : nat -> 'a1 lstate -> llabel -> 'a1 lstate res
 
 val ld_run : nat -> 'a1 lstate -> llabel list -> 'a1 lstate res
 
-val v_item : (z * z) -> val0
+val v_item0 : (z * z) -> val0
 
 val v_items : (z * z) list -> val0
 
@@ -3030,6 +3115,37 @@ val d_oracle : val0 -> val0
 val d_slices : val0 -> val0
 
 val dispatch_matcher : z -> val0 -> val0 option
+
+type mev = { e_x : z; e_y : z; e_down : bool; e_taken : bool; e_barlen : z }
+
+type geom = { g_top : z; g_left : z; g_h : z; g_w : z; g_min : z;
+              g_layout : z; g_lines : z }
+
+type outcome1 =
+| Stop
+| Row of z
+
+val safeb : geom -> outcome1 -> bool
+
+type mst = { s_wasDown : bool; s_bar : bool }
+
+val mst0 : mst
+
+val enclose : geom -> z -> z -> bool
+
+val translate : geom -> z -> z
+
+val mouse_step : geom -> mst -> mev -> mst * outcome1
+
+val mouse_run : geom -> mst -> mev list -> outcome1 list
+
+val as_geom : val0 -> geom
+
+val as_mev : val0 -> mev
+
+val v_outcome0 : outcome1 -> val0
+
+val dispatch_mouse : z -> val0 -> val0 option
 
 type field = nat
 
@@ -3604,12 +3720,12 @@ val template_loop : delim -> str list -> z -> nth_part list -> str -> str res
 
 val apply_nth : delim -> nth_fn -> str list -> z -> str res
 
-val ansi_processor : (str -> str) -> oopts -> str -> str
+val ansi_processor0 : (str -> str) -> oopts -> str -> str
 
 val trans :
   (str -> str) -> (nat -> str -> str) -> oopts -> nat -> str -> item3
 
-val as_string : (str -> str) -> (str -> str) -> bool -> item3 -> str
+val as_string0 : (str -> str) -> (str -> str) -> bool -> item3 -> str
 
 val printer : bool -> str -> str -> str
 
@@ -3707,7 +3823,7 @@ type action0 =
 | AFatal
 | AExpect of str
 
-type outcome1 =
+type outcome2 =
 | Running of term
 | Exited of str * z
 
@@ -3722,15 +3838,15 @@ val toggle_all_2 : nat -> nat -> item3 list -> sstate1 -> nat list -> sstate1
 
 val toggle_current0 : topts -> term -> (term * bool) res
 
-val req_close : (str -> str) -> (str -> str) -> topts -> term -> outcome1 res
+val req_close : (str -> str) -> (str -> str) -> topts -> term -> outcome2 res
 
-val req_print_query : topts -> term -> outcome1
+val req_print_query : topts -> term -> outcome2
 
 val do_action0 :
-  (str -> str) -> (str -> str) -> topts -> term -> action0 -> outcome1 res
+  (str -> str) -> (str -> str) -> topts -> term -> action0 -> outcome2 res
 
 val run_actions :
-  (str -> str) -> (str -> str) -> topts -> term -> action0 list -> outcome1
+  (str -> str) -> (str -> str) -> topts -> term -> action0 list -> outcome2
   res
 
 val select1_exit0 :
@@ -3739,7 +3855,7 @@ val select1_exit0 :
 
 val interactive :
   (str -> str) -> (str -> str) -> bool -> topts -> bool -> bool -> str ->
-  item3 list -> nat -> action0 list -> outcome1 res
+  item3 list -> nat -> action0 list -> outcome2 res
 
 val tbl_lookup : (str * str) list -> str -> str
 
@@ -3970,60 +4086,6 @@ val v_mitem : mitem option res -> val0
 
 val dispatch_pattern : z -> val0 -> val0 option
 
-type sitem = z * str
-
-val current_items : sitem option -> sitem list
-
-val plus_items : sitem option -> sitem list -> sitem list
-
-val join_with : str -> str list -> str
-
-val file_text : str -> str list -> str
-
-val force_update_of : str -> bool
-
-val plus_of : str -> bool
-
-val preview_flags : piece list -> (bool * bool) * bool
-
-val has_preview_flags : str -> (bool * bool) * bool
-
-val min_item : item2
-
-val opt_items : item2 option -> item2 list
-
-val build_plus_list :
-  str -> bool -> item2 option -> item2 list -> bool * (item2 list * item2
-  list)
-
-val with_items : params -> item2 list -> item2 list -> params
-
-val terminal_expand :
-  params -> item2 option -> item2 list -> str -> str list ->
-  (bool * (str * str list)) res
-
-val own_files : params -> piece -> str list res
-
-val vopt_words : str list option -> val0
-
-val as_item1 : val0 -> item2
-
-val as_optstr : val0 -> str option
-
-val as_params : val0 -> params
-
-val as_seg : val0 -> seg
-
-val v_outp : outp -> val0
-
-val v_piece : piece -> val0
-
-val v_item0 : item2 -> val0
-
-val as_optitem : val0 -> item2 option
-
-val dispatch_placeholder : z -> val0 -> val0 option
-
 type tmpl = { t_id : z; t_slot : bool; t_plus : bool; t_q : bool }
 
 type uistate = { u_focus : z; u_query : str; u_sel : z list }
@@ -4218,6 +4280,40 @@ val srun1 : gate -> z -> z -> slabel list -> sstate2 -> sstate2
 
 val sdone : sstate2 -> bool
 
+val has_command : tmpl -> uistate -> bool
+
+val window_blank : nat -> bool
+
+val no_command_state_ok : tmpl -> uistate -> seen_cmd list -> nat -> bool
+
+val view : 'a1 list -> nat -> nat -> 'a1 option list
+
+val blank_rows : nat -> 'a1 option list
+
+type presult = { pr_ver : nat; pr_lines : str list; pr_off : z }
+
+type wstate0 = { w_ver : nat; w_lines : str list; w_off : z; w_follow : 
+                 bool; m_ver : nat; m_off : z; m_num : nat; m_filled : 
+                 bool; w_rows : str option list }
+
+val winit : nat -> wstate0
+
+val zlen : 'a1 list -> z
+
+val d_fresh : wstate0 -> presult -> bool
+
+val d_foll : bool -> wstate0 -> presult -> bool
+
+val d_off : nat -> bool -> wstate0 -> presult -> z
+
+val d_unchanged : nat -> bool -> wstate0 -> presult -> bool
+
+val redraw_top : str list -> nat -> str option list -> str option list
+
+val on_display : nat -> bool -> wstate0 -> presult -> wstate0
+
+val wrun : nat -> bool -> presult list -> wstate0 -> wstate0
+
 val as_tmpl : val0 -> tmpl
 
 val as_ui : val0 -> uistate
@@ -4270,6 +4366,14 @@ val as_gate : val0 -> gate
 
 val d_scroll_run : gate -> z -> z -> z -> slabel list -> val0
 
+val d_noline_spec : tmpl -> uistate -> seen_cmd list -> nat -> val0
+
+val mk_lines : nat -> str list
+
+val as_presult : val0 -> presult
+
+val d_window_run : nat -> bool -> presult list -> val0
+
 val dispatch_preview : z -> val0 -> val0 option
 
 type crit =
@@ -4280,7 +4384,7 @@ type crit =
 | ByEnd
 | ByPathname
 
-val zlen : 'a1 list -> z
+val zlen0 : 'a1 list -> z
 
 val take_while3 : ('a1 -> bool) -> 'a1 list -> 'a1 list
 
@@ -4314,11 +4418,11 @@ val key1 : (z -> bool) -> crit -> str -> (z * z) list -> z -> z
 
 val key0 : (z -> bool) -> crit list -> str -> (z * z) list -> z -> z list
 
-type ritem = { ri_index : z; ri_key : z list }
+type ritem0 = { ri_index : z; ri_key : z list }
 
 val lex_ltb : z list -> z list -> bool
 
-val rank_ltb : bool -> ritem -> ritem -> bool
+val rank_ltb : bool -> ritem0 -> ritem0 -> bool
 
 val insert : ('a1 -> 'a1 -> bool) -> 'a1 -> 'a1 list -> 'a1 list
 
@@ -4332,18 +4436,18 @@ val merge_all : ('a1 -> 'a1 -> bool) -> nat -> 'a1 list list -> 'a1 list
 
 val msort : ('a1 -> 'a1 -> bool) -> 'a1 list -> 'a1 list
 
-val ranked : bool -> ritem list -> ritem list
+val ranked : bool -> ritem0 list -> ritem0 list
 
-val ranked_fast : bool -> ritem list -> ritem list
+val ranked_fast : bool -> ritem0 list -> ritem0 list
 
 val input_order : bool -> 'a1 list -> 'a1 list
 
-val result_order : bool -> bool -> ritem list -> ritem list
+val result_order : bool -> bool -> ritem0 list -> ritem0 list
 
 type line = { ln_index : z; ln_text : str;
               ln_match : ((z * z) list * z) option }
 
-val matched_items : (z -> bool) -> crit list -> line list -> ritem list
+val matched_items : (z -> bool) -> crit list -> line list -> ritem0 list
 
 val results :
   (z -> bool) -> crit list -> bool -> bool -> bool -> nat -> line list -> z
@@ -4375,7 +4479,7 @@ type item4 = { it_index0 : z; it_text0 : str }
 
 type points = ((z * z) * z) * z
 
-type result1 = { r_index : z; r_points : points }
+type result1 = { r_index0 : z; r_points : points }
 
 val set_point : points -> z -> z -> points res
 
@@ -4589,7 +4693,7 @@ val as_points : val0 -> points
 
 val as_result : val0 -> result1
 
-val ritem_of : result1 -> ritem
+val ritem_of : result1 -> ritem0
 
 val d_key : val0 -> val0
 
@@ -4621,7 +4725,7 @@ val as_witem : val0 -> witem
 
 val d_scan : val0 -> val0
 
-val as_ritem : val0 -> ritem
+val as_ritem : val0 -> ritem0
 
 val d_order : val0 -> val0
 
@@ -4827,6 +4931,67 @@ val d_session_views : val0 -> val0
 
 val dispatch_record : z -> val0 -> val0 option
 
+val changed_items : str list -> (z * str) list -> z list
+
+val prefixb0 : str -> str -> bool
+
+val contains0 : str -> str -> bool
+
+val substr_filter : str -> z -> str list -> z list
+
+val frozen_prefix : str list -> z -> str list
+
+val zmem : z -> z list -> bool
+
+val same_indexes : z list -> z list -> bool
+
+val published_filter : str -> str list -> z -> z list
+
+val published_changed : str list -> z -> (z * str) list -> z list
+
+val published_ok : str -> str list -> z -> z -> z -> (z * str) list -> bool
+
+type sreq0 = { sr_gen : nat; sr_count : nat; sr_rev : nat }
+
+val labels_clash : sreq0 list -> bool
+
+type cstate0 = { c_gen0 : nat; c_len : nat; c_inrev : nat; c_snapgen : 
+                 nat; c_snaplen : nat; c_snaprev : nat; c_reading0 : 
+                 bool; c_next0 : bool; c_usesnap0 : bool;
+                 c_posted : sreq0 list }
+
+val c_init : cstate0
+
+type cevent =
+| CPush0
+| CReadNew
+| CReadFin
+| CSearchNew of bool option * bool
+
+val c_restart : cstate0 -> cstate0
+
+val c_post : cstate0 -> cstate0
+
+val c_take : cstate0 -> cstate0
+
+val c_label : cstate0 -> cstate0
+
+val c_set : cstate0 -> bool -> bool -> bool -> cstate0
+
+val c_step : bool -> cstate0 -> cevent -> cstate0
+
+val c_run : bool -> cstate0 -> cevent list -> cstate0
+
+val as_rrep : val0 -> z * str
+
+val d_published : val0 -> val0
+
+val as_cevent : val0 -> cevent
+
+val d_coordrev : val0 -> val0
+
+val dispatch_reload : z -> val0 -> val0 option
+
 val sP : z
 
 val gT : z
@@ -4860,8 +5025,8 @@ type cfg1 = { c_w : nat; c_h0 : nat; c_layout : layout; c_info : info_style;
               c_sep : bool; c_header : str list; c_hlines : str list;
               c_multi0 : z; c_tabstop : nat }
 
-type view = { v_prompt : str; v_query : str; v_matches : (nat * str) list;
-              v_total : nat; v_cy : nat; v_off0 : nat; v_sel : nat list }
+type view0 = { v_prompt : str; v_query : str; v_matches : (nat * str) list;
+               v_total : nat; v_cy : nat; v_off0 : nat; v_sel : nat list }
 
 type row = z list
 
@@ -4893,13 +5058,13 @@ val decn : nat -> str
 
 val memb : nat -> nat list -> bool
 
-val info_text : cfg1 -> view -> str
+val info_text : cfg1 -> view0 -> str
 
 val trim_msg : nat -> str -> str
 
 val info_tail : cfg1 -> nat -> str -> str
 
-val prompt_text : view -> str
+val prompt_text : view0 -> str
 
 val prompt_lines : cfg1 -> nat
 
@@ -4907,19 +5072,19 @@ val nheader : cfg1 -> nat
 
 val max_items : cfg1 -> nat
 
-val inline_right_col : cfg1 -> view -> nat
+val inline_right_col : cfg1 -> view0 -> nat
 
-val info_shown : cfg1 -> view -> str
+val info_shown : cfg1 -> view0 -> str
 
-val prompt_row_text : cfg1 -> view -> row
+val prompt_row_text : cfg1 -> view0 -> row
 
-val info_row_text : cfg1 -> view -> row
+val info_row_text : cfg1 -> view0 -> row
 
 val header_row_text : cfg1 -> str -> row
 
-val item_row_text : cfg1 -> view -> nat -> (nat * str) -> row
+val item_row_text : cfg1 -> view0 -> nat -> (nat * str) -> row
 
-val list_slot_text : cfg1 -> view -> nat -> row
+val list_slot_text : cfg1 -> view0 -> nat -> row
 
 val prompt_row : cfg1 -> nat
 
@@ -4939,13 +5104,13 @@ val rstrip : str -> str
 
 val row_eqb : row -> row -> bool
 
-val prefixb0 : str -> str -> bool
+val prefixb1 : str -> str -> bool
 
 val containsb : str -> str -> bool
 
 val counter_row : cfg1 -> nat
 
-val info_visibleb : cfg1 -> view -> row list -> bool
+val info_visibleb : cfg1 -> view0 -> row list -> bool
 
 val chk : z -> bool -> z list
 
@@ -4954,7 +5119,7 @@ val chk_rows : nat -> nat -> row list -> z list
 val chk_headers :
   z -> (nat -> nat) -> cfg1 -> row list -> nat -> str list -> z list
 
-val check_faithful : cfg1 -> view -> row list -> z list
+val check_faithful : cfg1 -> view0 -> row list -> z list
 
 type mrows = { mr_wrap : bool; mr_multiline : bool; mr_sign : str;
                mr_marks : z list }
@@ -4980,19 +5145,19 @@ val mapi_from : nat -> (nat -> 'a1 -> 'a2) -> 'a1 list -> 'a2 list
 val is_default : cfg1 -> bool
 
 val item_block :
-  cfg1 -> mrows -> view -> nat -> (nat * str) -> nat -> row list
+  cfg1 -> mrows -> view0 -> nat -> (nat * str) -> nat -> row list
 
 val area_from :
-  cfg1 -> mrows -> view -> nat -> (nat * str) list -> nat -> row list
+  cfg1 -> mrows -> view0 -> nat -> (nat * str) list -> nat -> row list
 
-val mrows_area : cfg1 -> mrows -> view -> nat -> row list
+val mrows_area : cfg1 -> mrows -> view0 -> nat -> row list
 
 val area_mismatches : cfg1 -> row list -> row list -> nat
 
 val best_offset :
-  cfg1 -> mrows -> view -> row list -> nat list -> (nat * nat) -> nat * nat
+  cfg1 -> mrows -> view0 -> row list -> nat list -> (nat * nat) -> nat * nat
 
-val check_mrows : cfg1 -> mrows -> view -> row list -> z list
+val check_mrows : cfg1 -> mrows -> view0 -> row list -> z list
 
 val clampn : nat -> nat -> nat -> nat
 
@@ -5030,13 +5195,13 @@ type term1 = { t_prompt : str; t_query : str; t_matches : (nat * str) list;
                t_total : nat; t_cy0 : nat; t_off : nat; t_sel0 : nat list;
                t_screen : row list; t_prev : iline list }
 
-val t_view : term1 -> view
+val t_view : term1 -> view0
 
 val set_draw : term1 -> row list -> iline list -> term1
 
 val set_scroll : term1 -> nat -> nat -> term1
 
-val item_text : nat -> nat -> str -> str
+val item_text0 : nat -> nat -> str -> str
 
 val prompt_item_text : nat -> str -> str
 
@@ -5084,13 +5249,13 @@ type upd = { u_prompt : str; u_query0 : str; u_matches : (nat * str) list;
 
 val step3 : cfg1 -> term1 -> upd -> term1
 
-val term_of_view : view -> term1
+val term_of_view : view0 -> term1
 
-val start : cfg1 -> view -> term1
+val start : cfg1 -> view0 -> term1
 
 val physical : cfg1 -> row list -> row list
 
-val render1 : cfg1 -> view -> row list
+val render1 : cfg1 -> view0 -> row list
 
 type hdr = { h_visible : bool; h_header : str list; h_hlines : str list }
 
@@ -5136,7 +5301,47 @@ type dupd = { du_hdr : hdr; du_upd : upd }
 
 val step_d : cfg1 -> dterm -> dupd -> dterm
 
-val start_d : cfg1 -> hdr -> view -> dterm
+val start_d : cfg1 -> hdr -> view0 -> dterm
+
+val ghost_on : str -> str -> bool
+
+val input_shown : str -> str -> str
+
+val input_cols : str -> str -> nat
+
+val prompt_text_g : str -> view0 -> str
+
+val input_end : str -> view0 -> nat
+
+val inline_right_col_at : cfg1 -> view0 -> nat -> nat
+
+val info_shown_at : cfg1 -> view0 -> nat -> str
+
+val prompt_row_text_at : cfg1 -> view0 -> str -> nat -> row
+
+val prompt_row_text_g : cfg1 -> str -> view0 -> row
+
+val info_shown_g : cfg1 -> str -> view0 -> str
+
+val info_visibleb_g : cfg1 -> str -> view0 -> row list -> bool
+
+val query_on_prompt_rowb : view0 -> row -> bool
+
+val check_faithful_g : cfg1 -> str -> view0 -> row list -> z list
+
+val is_nil : 'a1 list -> bool
+
+val print_prompt_g : cfg1 -> str -> nat -> term1 -> term1
+
+val print_info_at : cfg1 -> nat -> term1 -> term1
+
+val shift_len : str -> str -> nat
+
+val print_info_g : cfg1 -> str -> term1 -> term1
+
+val paint_g : cfg1 -> str -> nat -> term1 -> term1
+
+val render_g : cfg1 -> str -> nat -> view0 -> row list
 
 val as_layout : val0 -> layout
 
@@ -5148,7 +5353,7 @@ val as_match : val0 -> nat * str
 
 val as_nats0 : val0 -> nat list
 
-val as_view : val0 -> view
+val as_view : val0 -> view0
 
 val as_reqs : val0 -> reqs
 
@@ -5217,24 +5422,24 @@ val read_source : src -> bool -> cmd0 -> bool -> rev2 list
 
 val restart_trace : cmd0 -> rev2 list
 
-type cstate0 = { c_reading0 : bool; c_next0 : cmd0 option; c_held : bool;
+type cstate1 = { c_reading1 : bool; c_next1 : cmd0 option; c_held : bool;
                  c_blocked : bool; c_stop : bool; c_leaked : nat }
 
-val c0 : cstate0
+val c0 : cstate1
 
 type cev =
-| CSearchNew of cmd0 option
-| CReadNew
-| CReadFin
+| CSearchNew0 of cmd0 option
+| CReadNew0
+| CReadFin0
 | CQuit
 
-val do_terminate : cstate0 -> cstate0
+val do_terminate : cstate1 -> cstate1
 
-val do_restart : (cmd0 -> rev2 list) -> cmd0 -> cstate0 -> cstate0
+val do_restart : (cmd0 -> rev2 list) -> cmd0 -> cstate1 -> cstate1
 
-val c_step : (cmd0 -> rev2 list) -> cstate0 -> cev -> cstate0
+val c_step0 : (cmd0 -> rev2 list) -> cstate1 -> cev -> cstate1
 
-val c_run : (cmd0 -> rev2 list) -> cstate0 -> cev list -> cstate0
+val c_run0 : (cmd0 -> rev2 list) -> cstate1 -> cev list -> cstate1
 
 val rev_code : rev2 -> z
 
@@ -5253,7 +5458,7 @@ type modes = { m_1000 : bool; m_1002 : bool; m_1003 : bool; m_1006 :
 
 val m0 : modes
 
-type mev =
+type mev0 =
 | MSet of z
 | MReset of z
 | MSave
@@ -5263,9 +5468,9 @@ val remove_z : z -> z list -> z list
 
 val set_mode : z -> bool -> modes -> modes
 
-val apply_ev : mev -> modes -> modes
+val apply_ev : mev0 -> modes -> modes
 
-val apply_evs : mev list -> modes -> modes
+val apply_evs : mev0 list -> modes -> modes
 
 type pst =
 | Ground
@@ -5277,15 +5482,15 @@ type pst =
 
 val inr : z -> z -> z -> bool
 
-val csi_final : z -> z list -> z -> bool -> z -> mev list
+val csi_final : z -> z list -> z -> bool -> z -> mev0 list
 
-val step_esc : z -> pst * mev list
+val step_esc : z -> pst * mev0 list
 
-val step4 : pst -> z -> pst * mev list
+val step4 : pst -> z -> pst * mev0 list
 
-val events_from : pst -> z list -> pst * mev list
+val events_from : pst -> z list -> pst * mev0 list
 
-val events : z list -> mev list
+val events : z list -> mev0 list
 
 val net_effect : z list -> modes -> modes
 
@@ -5447,7 +5652,7 @@ val run_proxy : penv0 -> pres0
 
 val vmodes : modes -> val0
 
-val vev : mev -> val0
+val vev : mev0 -> val0
 
 val as_cfg2 : val0 -> cfg2
 
@@ -5528,14 +5733,6 @@ val wide : z -> bool
 val simple_ovf_from : z list -> nat -> z -> z -> z -> nat option
 
 val simple_ovf : z list -> z -> z -> nat option
-
-val changed_items : str list -> (z * str) list -> z list
-
-val prefixb1 : str -> str -> bool
-
-val contains0 : str -> str -> bool
-
-val substr_filter : str -> z -> str list -> z list
 
 val as_pop : val0 -> pop
 
